@@ -153,6 +153,9 @@ def check(ctx):
             )
     ctx.floor("C11-g", n_shape, 12, "pressure-taking functions")
 
+    from .dtypes import check_masked_calls
+
+    check_masked_calls(ctx, "C11-i", ["bluebonnet.fluids.oil", "bluebonnet.fluids.water", "bluebonnet.fluids.fluid"])
     from .dtypes import check_vectorize
 
     nv = check_vectorize(ctx, "C11-h", ["bluebonnet.fluids.oil", "bluebonnet.fluids.water", "bluebonnet.fluids.fluid"])
